@@ -120,7 +120,6 @@ pdgstrf_thread_init(SuperMatrix *A, SuperMatrix *L, SuperMatrix *U,
     Glu.nextl  = 0;
     Glu.nextu  = 0;
     Glu.nextlu = 0;
-    ifill(perm_r, n, EMPTY);
 
     /* Identify relaxed supernodes at the bottom of the etree. */
     pxgstrf_relax = (pxgstrf_relax_t *)
@@ -147,6 +146,9 @@ pdgstrf_thread_init(SuperMatrix *A, SuperMatrix *L, SuperMatrix *U,
     /* Allocate global storage common to all the factor routines */
     *info = pdgstrf_MemInit(n, Astore->nnz, options, L, U, &Glu);
     if ( *info ) return NULL;
+    /* only now is it certain that a factorization will run (a workspace
+       query or a memory failure must leave the caller's perm_r alone) */
+    ifill(perm_r, n, EMPTY);
 
     /* Prepare arguments to all threads. */
     pdgstrf_threadarg = (pdgstrf_threadarg_t *) 
